@@ -119,7 +119,8 @@ def run(chk):
 
     # ---------------- level 2
     cfg = os.path.join(W, "compile.cfg")
-    open(cfg, "w").write("SPECIFICATION Spec\nINVARIANTS Emit\nCHECK_DEADLOCK FALSE\n")
+    nrand = 6000 if thorough else 300
+    open(cfg, "w").write(f"SPECIFICATION Spec\nCONSTANT NRand = {nrand}\nINVARIANTS Emit\nCHECK_DEADLOCK FALSE\n")
     r = tlc.check(os.path.join(D, "MC_TetrisCompile.tla"), cfg, timeout=14400, mem="12g")
     chk.add_tlc("MC_TetrisCompile stacks x outlines x features", r)
     chk.tlc_must_pass("MC_TetrisCompile", r)
@@ -183,7 +184,7 @@ def run(chk):
 def determinism_inputs(chk):
     """a few compile inputs for C20"""
     cfg = os.path.join(chk.workdir, "compile_det.cfg")
-    open(cfg, "w").write("SPECIFICATION Spec\nINVARIANTS Emit\nCHECK_DEADLOCK FALSE\n")
+    open(cfg, "w").write("SPECIFICATION Spec\nCONSTANT NRand = 30\nINVARIANTS Emit\nCHECK_DEADLOCK FALSE\n")
     r = chk.tlc.check(os.path.join(D, "MC_TetrisCompile.tla"), cfg, timeout=7200, mem="12g")
     chk.add_tlc("MC_TetrisCompile (inputs)", r)
     chk.tlc_must_pass("MC_TetrisCompile (C20 inputs)", r)
